@@ -94,6 +94,7 @@ def document_cycle(case):
     import tempfile
     from neuroml.loaders import NeuroMLLoader
     from neuroml.writers import NeuroMLWriter
+    global NAME_TURN
     r = {}
     d = tempfile.mkdtemp(prefix="verif_c01_")
     try:
@@ -162,9 +163,34 @@ def document_cycle(case):
                     mism.append("history:%s of a path that was written over returns a different document" % name)
         except BaseException as e:  # noqa
             mism.append("history: reused path raises %s: %s" % (type(e).__name__, str(e)[:120]))
+        # the same document under a namespace prefix (a loaded tree carries the prefix): written twice, read back
+        try:
+            if NAME_TURN % 4 == 0 and "<annotation" not in texts[0]:
+                NSU = "http://www.neuroml.org/schema/neuroml2"
+                root0 = etree.fromstring(texts[0].encode("utf-8"))
+                new = etree.Element(root0.tag, nsmap=dict([("pfx", NSU)] + [(k, v) for k, v in root0.nsmap.items() if k]))
+                new.text = root0.text
+                for k, v in root0.attrib.items():
+                    new.set(k, v)
+                for ch in list(root0):
+                    new.append(ch)
+                etree.cleanup_namespaces(new)
+                ptext = etree.tostring(new, encoding="unicode")
+                if "<pfx:" in ptext:
+                    dp = read_neuroml2_string(ptext)
+                    if dump(dp) != ref_dump:
+                        mism.append("prefixed: the prefixed text loads to a different document")
+                    p1, p2 = os.path.join(d, "pfx1.nml"), os.path.join(d, "pfx2.nml")
+                    NeuroMLWriter.write(dp, p1)
+                    NeuroMLWriter.write(dp, p2)
+                    if open(p1, "rb").read() != open(p2, "rb").read():
+                        mism.append("prefixed: a document loaded from prefixed text is written differently the second time")
+                    if dump(NeuroMLLoader.load(p2)) != ref_dump:
+                        mism.append("prefixed: written and read back gives a different document")
+        except BaseException as e:  # noqa
+            mism.append("prefixed: raises %s: %s" % (type(e).__name__, str(e)[:120]))
         # the name of the exchange file is not content: unusual but legal XML file names, one per document in turn
         try:
-            global NAME_TURN
             names = ["net.h5.nml", "cells.HDF5.xml", "a.nml.h5.exported.xml", "with space.nml", "d\u00e9j\u00e0.nml", "UPPER.NML",
                      "no_extension", "two..dots.nml", ".hidden.nml", "h5", "x.hdf5.nml"]
             nm = names[NAME_TURN % len(names)]
